@@ -282,7 +282,10 @@ func RunMath(c MathCase) (res MathResult) {
 	if _, err := crypto.BLSReconstructThresholdSignature(g.N, g.T, shares, dup); !crypto.IsDuplicatedSignerError(err) {
 		add("DuplicateSigner", fmt.Sprintf("err=%v", err))
 	}
-	for _, badIdx := range []int{-1, g.N} {
+	for _, badIdx := range []int{-1, g.N, 255, 256, 256 + signers[0], 65536 + signers[0], signers[0] - 256, 1 << 32, -(1 << 31)} {
+		if badIdx >= 0 && badIdx < g.N {
+			continue
+		}
 		oor := append([]int{}, signers...)
 		oor[rng.Intn(len(oor))] = badIdx
 		if _, err := crypto.BLSReconstructThresholdSignature(g.N, g.T, shares, oor); !crypto.IsInvalidInputsError(err) {
